@@ -270,6 +270,11 @@ static void gp_va_list_dummy_consumer(
                     break;
 
                     case 'j':
+                        va_arg(args->list, intmax_t);
+                    break;
+
+                    case 'z':
+                    case 't':
                         va_arg(args->list, ptrdiff_t);
                     break;
                 }
@@ -302,7 +307,12 @@ static void gp_va_list_dummy_consumer(
                         va_arg(args->list, unsigned long long);
                     break;
 
+                    case 'j':
+                        va_arg(args->list, uintmax_t);
+                    break;
+
                     case 'z':
+                    case 't':
                         va_arg(args->list, size_t);
                     break;
                 }
